@@ -341,3 +341,11 @@ impl SvgBuilder {
         Ok(())
     }
 }
+
+#[cfg(fast_qr_verif)]
+impl SvgBuilder {
+    #[allow(missing_docs)]
+    pub fn verif_image_placement(shape: ImageBackgroundShape, n: usize) -> (f64, f64) {
+        Self::image_placement(shape, n)
+    }
+}
